@@ -4,7 +4,10 @@ At a seeded point of a bandit's life three clones are made: a reference deep cop
 (deepcopy or pickle protocol 2..5, restored in this process or in a fresh interpreter), and the original M
 keeps living.  The same continuation K is run first on C, then on M, then on P; all three output streams
 must be equal bit-for-bit: C == M says the clone behaves like the original, M == P says using the clone did
-not disturb the original."""
+not disturb the original.
+
+As built: Extras: all six copy points are reached in both tiers; Thompson bandits that receive their binarizer through add_arm and are then fed non-binary rewards.
+"""
 from mon import env
 import copy
 import json
